@@ -355,7 +355,3 @@ func (e *typeEnv) jsonOf(t *idl.Type, v *gval) string {
 	return "null"
 }
 
-// usesFloat / usesObject decide the imports of an emitted driver file
-func litNeeds(s string) (needMath, needJSON bool) {
-	return strings.Contains(s, "math."), strings.Contains(s, "json.")
-}
